@@ -35,12 +35,15 @@ inductive Mv where
   | kernel
   /-- thread `i` starts a new call of `add` submitting `entry` (if its previous call returned) -/
   | again (i : Nat) (entry : Nat)
+  /-- the call of thread `i` is left by a panic of user code while the submission is filled -/
+  | abort (i : Nat)
   deriving Repr, DecidableEq
 
 def stepMv (s : St) : Mv → St
   | .thr i => (stepThr s i).1
   | .kernel => (stepKernel s).1
   | .again i e => (restart s i e).1
+  | .abort i => abortThr s i
 
 /-- Apply the moves in order. -/
 def runMv (s : St) : List Mv → St
@@ -57,6 +60,7 @@ theorem inv_stepMv {h0 : Nat} {s : St} (h : Inv h0 s) (m : Mv) : Inv h0 (stepMv 
   | thr i => exact inv_stepThr h i
   | kernel => exact inv_stepKernel h
   | again i e => exact inv_restart h i e
+  | abort i => exact inv_abortThr h i
 
 theorem inv_runMv {h0 : Nat} {s : St} (h : Inv h0 s) (mvs : List Mv) : Inv h0 (runMv s mvs) := by
   induction mvs generalizing s with
@@ -198,6 +202,34 @@ theorem restart_thr {s : St} {i : Nat} {t : Thr} (h : s.thr[i]? = some t) (e : N
 theorem restart_none {s : St} {i : Nat} (h : s.thr[i]? = none) (e : Nat) :
     (restart s i e).1 = s := by
   unfold restart; rw [h]
+
+/-- What an aborted call changes: at most the pc of its thread (to `full`) and the lock. -/
+theorem abortThr_frame (s : St) (i : Nat) :
+    (abortThr s i).slots = s.slots ∧ (abortThr s i).T = s.T ∧ (abortThr s i).H = s.H ∧
+    (abortThr s i).accepted = s.accepted ∧ (abortThr s i).consumed = s.consumed ∧
+    (abortThr s i).len = s.len := by
+  unfold abortThr
+  cases s.thr[i]? with
+  | none => exact ⟨rfl, rfl, rfl, rfl, rfl, rfl⟩
+  | some t => simp only; split <;> exact ⟨rfl, rfl, rfl, rfl, rfl, rfl⟩
+
+theorem abortThr_w2 {s : St} {i : Nat} {t : Thr} {tl : Nat} (h : s.thr[i]? = some t)
+    (hpc : t.pc = .w2 tl) :
+    abortThr s i = { setThr s i { t with pc := .full } with lock := none } := by
+  unfold abortThr
+  rw [h]
+  simp only [hpc]
+
+theorem abortThr_other {s : St} {i : Nat} {t : Thr} (h : s.thr[i]? = some t)
+    (hpc : ∀ tl, t.pc ≠ .w2 tl) : abortThr s i = s := by
+  unfold abortThr
+  rw [h]
+  cases hp : t.pc with
+  | w2 tl => exact absurd hp (hpc tl)
+  | _ => simp only [hp]
+
+theorem abortThr_none {s : St} {i : Nat} (h : s.thr[i]? = none) : abortThr s i = s := by
+  unfold abortThr; rw [h]
 
 /-! ### C04: the property theorems -/
 
@@ -515,13 +547,28 @@ theorem stepMv_len (s : St) (m : Mv) : (stepMv s m).len = s.len := by
   | thr i => exact stepThr_len s i
   | kernel => exact stepKernel_len s
   | again i e => exact restart_len s i e
+  | abort i => exact (abortThr_frame s i).2.2.2.2.2
 
 /-- While thread `i` holds the lock, no move other than its own changes its
 pc/loaded values, or the tail. -/
 theorem holder_stable {h0 : Nat} {s : St} (h : Inv h0 s) {i : Nat} {t : Thr}
-    (hti : s.thr[i]? = some t) (hh : Holds t.pc) (m : Mv) (hm : m ≠ .thr i) :
+    (hti : s.thr[i]? = some t) (hh : Holds t.pc) (m : Mv) (hm : m ≠ .thr i)
+    (hma : m ≠ .abort i) :
     (stepMv s m).thr[i]? = some t ∧ (stepMv s m).T = s.T := by
   cases m with
+  | abort j =>
+    have hji : i ≠ j := fun e => hma (by rw [e])
+    refine ⟨?_, (abortThr_frame s j).2.1⟩
+    simp only [stepMv]
+    cases htj : s.thr[j]? with
+    | none => rw [abortThr_none htj]; exact hti
+    | some tj =>
+      by_cases hw : ∃ tl, tj.pc = .w2 tl
+      · obtain ⟨tl, hw⟩ := hw
+        rw [abortThr_w2 htj hw]
+        show (s.thr.set j _)[i]? = some t
+        rw [get_set_thr htj, if_neg hji]; exact hti
+      · rw [abortThr_other htj (fun tl e => hw ⟨tl, e⟩)]; exact hti
   | thr j =>
     have hji : i ≠ j := fun e => hm (by rw [e])
     cases htj : s.thr[j]? with
@@ -557,12 +604,12 @@ theorem holder_stable {h0 : Nat} {s : St} (h : Inv h0 s) {i : Nat} {t : Thr}
 
 theorem holder_stable_run {h0 : Nat} {s : St} (h : Inv h0 s) {i : Nat} {t : Thr}
     (hti : s.thr[i]? = some t) (hh : Holds t.pc) (mid : List Mv)
-    (hm : ∀ m ∈ mid, m ≠ .thr i) :
+    (hm : ∀ m ∈ mid, m ≠ .thr i ∧ m ≠ .abort i) :
     (runMv s mid).thr[i]? = some t ∧ (runMv s mid).T = s.T ∧ (runMv s mid).len = s.len := by
   induction mid generalizing s with
   | nil => exact ⟨hti, rfl, rfl⟩
   | cons m ms ih =>
-    have h1 := holder_stable h hti hh m (hm m (by simp))
+    have h1 := holder_stable h hti hh m (hm m (by simp)).1 (hm m (by simp)).2
     have h2 := ih (inv_stepMv h m) h1.1 (fun m' hm' => hm m' (by simp [hm']))
     exact ⟨h2.1, h2.2.1.trans h1.2, h2.2.2.trans (stepMv_len s m)⟩
 
@@ -575,7 +622,7 @@ theorem C04_full_at_load (len h0 n : Nat) (hw : WfLen len) (pre mid : List Mv)
     (i : Nat) (t : Thr) :
     let s1 := runMv (init len h0 n) pre
     let s2 := runMv (init len h0 n) (pre ++ [.thr i] ++ mid)
-    s1.thr[i]? = some t → t.pc = .a4 → (∀ m ∈ mid, m ≠ .thr i) →
+    s1.thr[i]? = some t → t.pc = .a4 → (∀ m ∈ mid, m ≠ .thr i ∧ m ≠ .abort i) →
       s2.thr[i]? = some { t with pc := .a5 (head32 s1) } ∧ s2.T = s1.T ∧
       (pcOf (stepThr s2 i).1 i = some .full ↔ s1.T - s1.H = s1.len) ∧
       (pcOf (stepThr s2 i).1 i = some (.w1 (tail32 s1)) ↔ s1.T - s1.H < s1.len) := by
@@ -634,6 +681,21 @@ theorem C04_accepted_published (s : St) (m : Mv) (i : Nat) (t' : Thr) :
   intro h1 h2
   cases m with
   | kernel => left; simpa [stepMv, stepKernel_thr] using h1
+  | abort j =>
+    left
+    simp only [stepMv] at h1
+    cases htj : s.thr[j]? with
+    | none => rwa [abortThr_none htj] at h1
+    | some tj =>
+      by_cases hw : ∃ tl, tj.pc = .w2 tl
+      · obtain ⟨tl, hw⟩ := hw
+        rw [abortThr_w2 htj hw] at h1
+        have h1' : (s.thr.set j { tj with pc := .full })[i]? = some t' := h1
+        rw [get_set_thr htj] at h1'
+        split at h1'
+        · cases h1'; cases h2
+        · exact h1'
+      · rwa [abortThr_other htj (fun tl e => hw ⟨tl, e⟩)] at h1
   | again j e =>
     left
     simp only [stepMv] at h1
@@ -683,6 +745,7 @@ theorem C04_writes_only_w (s : St) (m : Mv) :
   cases m with
   | kernel => exact absurd (stepKernel_slots s) hne
   | again j e => exact absurd (restart_slots s j e) hne
+  | abort j => exact absurd (abortThr_frame s j).1 hne
   | thr j =>
     simp only [stepMv] at hne
     cases htj : s.thr[j]? with
@@ -704,6 +767,7 @@ def stepW (s : St) (w : List Bool) : Mv → List Bool
     | some (.w2 _) => w.set i true
     | _ => w
   | .kernel => w
+  | .abort _ => w
   | .again i _ =>
     match pcOf s i with
     | some .ok => w.set i false
@@ -737,10 +801,11 @@ theorem set_bool_get {w : List Bool} {i : Nat} {b0 : Bool} (h : w[i]? = some b0)
     · rw [List.getElem?_eq_none h1] at h; cases h
   simp [hi]
 
-theorem winv_step {s : St} {w : List Bool} (h : WInv s w) (m : Mv) :
+theorem winv_step {s : St} {w : List Bool} (h : WInv s w) (m : Mv) (hna : ∀ j, m ≠ .abort j) :
     WInv (stepMv s m) (stepW s w m) := by
   intro k tk hk
   cases m with
+  | abort j => exact absurd rfl (hna j)
   | kernel =>
     simp only [stepMv, stepKernel_thr] at hk
     exact h k tk hk
@@ -810,15 +875,19 @@ theorem winv_init (len h0 n : Nat) : WInv (init len h0 n) (List.replicate n fals
       · rw [List.getElem?_eq_none (by simpa using h2)] at hr; cases hr
     simp [wrote_startPc, hi]
 
-theorem winv_run {s : St} {w : List Bool} (h : WInv s w) (mvs : List Mv) :
+theorem winv_run {s : St} {w : List Bool} (h : WInv s w) (mvs : List Mv)
+    (hna : ∀ m ∈ mvs, ∀ j, m ≠ .abort j) :
     WInv (runW s w mvs).1 (runW s w mvs).2 := by
   induction mvs generalizing s w with
   | nil => exact h
-  | cons m ms ih => exact ih (winv_step h m)
+  | cons m ms ih =>
+    exact ih (winv_step h m (hna m (by simp))) (fun m' hm' => hna m' (by simp [hm']))
 
 /-- A thread whose call answered `QueueFull` performed no slot-writing step in
-that call; a thread whose call answered `Ok` did. -/
-theorem C04_full_never_wrote (len h0 n : Nat) (mvs : List Mv) (i : Nat) (t : Thr) :
+that call; a thread whose call answered `Ok` did. (Runs without calls left by a panic: such a call
+has reset its slot — `Mv.abort`, `C04_abort_publishes_nothing`.) -/
+theorem C04_full_never_wrote (len h0 n : Nat) (mvs : List Mv) (i : Nat) (t : Thr)
+    (hna : ∀ m ∈ mvs, ∀ j, m ≠ .abort j) :
     let r := runW (init len h0 n) (List.replicate n false) mvs
     r.1 = runMv (init len h0 n) mvs ∧
     (r.1.thr[i]? = some t →
@@ -826,12 +895,40 @@ theorem C04_full_never_wrote (len h0 n : Nat) (mvs : List Mv) (i : Nat) (t : Thr
   intro r
   refine ⟨runW_fst _ _ _, ?_⟩
   intro hti
-  have h : WInv r.1 r.2 := winv_run (winv_init len h0 n) mvs
+  have h : WInv r.1 r.2 := winv_run (winv_init len h0 n) mvs hna
   have := h i t hti
   constructor
   · intro hpc; rw [hpc] at this; exact this
   · intro hpc; rw [hpc] at this; exact this
 
+
+/-- **A call left by a panic while the submission is filled publishes nothing** (`Mv.abort`; the
+situation of seeded change C04h and of the `sq panicfill` scenario): the tail, the publication
+history, what the kernel consumed and every slot are as before — the reset slot `T mod len` lies
+outside the window `[H, T)` (`C04_window_intact` holds for runs with such calls, like every
+theorem above: `Mv` includes them) — the lock is released and the call is over. -/
+theorem C04_abort_publishes_nothing (s : St) (i : Nat) :
+    (abortThr s i).T = s.T ∧ (abortThr s i).H = s.H ∧ (abortThr s i).accepted = s.accepted ∧
+    (abortThr s i).consumed = s.consumed ∧ (abortThr s i).slots = s.slots ∧
+    (∀ (t : Thr) (tl : Nat), s.thr[i]? = some t → t.pc = .w2 tl →
+      (abortThr s i).lock = none ∧ pcOf (abortThr s i) i = some .full) := by
+  obtain ⟨a, b, c, d, e, _⟩ := abortThr_frame s i
+  refine ⟨b, c, d, e, a, ?_⟩
+  intro t tl hti hpc
+  rw [abortThr_w2 hti hpc]
+  refine ⟨rfl, ?_⟩
+  show ((s.thr.set i { t with pc := .full })[i]?).map (·.pc) = some .full
+  rw [get_set_thr hti, if_pos rfl]
+  rfl
+
+/-- Non-vacuity: thread 0 of a queue of two slots is inside its fill (`w2`) when it is aborted;
+thread 1 then takes the lock and publishes: the kernel consumes exactly thread 1's entry. -/
+example :
+    let s := runMv (init 2 7 2) (List.replicate 6 (.thr 0))
+    pcOf s 0 = some (.w2 7) ∧ s.lock = some 0 ∧
+    (runMv s ([.abort 0] ++ List.replicate 8 (.thr 1) ++ [.kernel])).consumed = [some 1] ∧
+    (runMv s ([.abort 0] ++ List.replicate 8 (.thr 1) ++ [.kernel])).accepted = [1] := by
+  decide
 
 /-! ### Exactly once, by entry identity -/
 
@@ -841,6 +938,7 @@ def againIds : List Mv → List Nat
   | .again _ e :: ms => e :: againIds ms
   | .thr _ :: ms => againIds ms
   | .kernel :: ms => againIds ms
+  | .abort _ :: ms => againIds ms
 
 /-- Invariant about entry identities; `U` is the set of ids handed out so far. -/
 structure IdInv (U : List Nat) (s : St) : Prop where
@@ -1003,6 +1101,18 @@ theorem idinv_restart {U : List Nat} {s : St} (h : IdInv U s) (j e : Nat) (he : 
         by rw [hthr]; exact hmono.thrU, by rw [hthr, hacc]; exact hmono.fresh,
         by rw [hthr, hacc]; exact hmono.okin, by rw [hthr]; exact hmono.distinct⟩
 
+theorem idinv_abort {U : List Nat} {s : St} (h : IdInv U s) (j : Nat) :
+    IdInv U (abortThr s j) := by
+  cases htj : s.thr[j]? with
+  | none => rw [abortThr_none htj]; exact h
+  | some tj =>
+    by_cases hw : ∃ tl, tj.pc = .w2 tl
+    · obtain ⟨tl, hw⟩ := hw
+      rw [abortThr_w2 htj hw]
+      exact idinv_update h htj .full rfl (fun _ => by rw [hw]; simp)
+        (Or.inl ⟨rfl, fun e => by cases e⟩)
+    · rw [abortThr_other htj (fun tl e => hw ⟨tl, e⟩)]; exact h
+
 theorem idinv_run {U : List Nat} {s : St} (h : IdInv U s) (mvs : List Mv)
     (hnd : (U ++ againIds mvs).Nodup) : IdInv (U ++ againIds mvs) (runMv s mvs) := by
   induction mvs generalizing U s with
@@ -1011,6 +1121,7 @@ theorem idinv_run {U : List Nat} {s : St} (h : IdInv U s) (mvs : List Mv)
     cases m with
     | thr j => exact ih (idinv_stepThr h j) hnd
     | kernel => exact ih (idinv_stepKernel h) hnd
+    | abort j => exact ih (idinv_abort h j) hnd
     | again j e =>
       have e1 : U ++ againIds (.again j e :: ms) = (U ++ [e]) ++ againIds ms := by
         simp [againIds]
@@ -1222,6 +1333,7 @@ inductive MvP where
   | kernel
   | again (i : Nat) (entry : Nat)
   | enter
+  | abort (i : Nat)
   deriving Repr, DecidableEq
 
 def kernelN : Nat → St → St
@@ -1233,6 +1345,7 @@ def stepP (v : Variant) (s : St) : MvP → St
   | .kernel => (stepKernel s).1
   | .again i e => (restart s i e).1
   | .enter => kernelN (v.toSubmit (tail32 s) (head32 s)) s
+  | .abort i => abortThr s i
 
 def runP (v : Variant) (s : St) : List MvP → St
   | [] => s
@@ -1242,6 +1355,7 @@ def MvP.ofMv : Mv → MvP
   | .thr i => .thr i
   | .kernel => .kernel
   | .again i e => .again i e
+  | .abort i => .abort i
 
 theorem stepThrP_fixed (s : St) (i : Nat) : stepThrP fixedV s i = (stepThr s i).1 := by
   unfold stepThrP stepThr
@@ -1261,6 +1375,7 @@ theorem runP_fixed (s : St) (mvs : List Mv) : runP fixedV s (mvs.map MvP.ofMv) =
     | thr i => simp only [List.map, runP, runMv, MvP.ofMv, stepP, stepMv, stepThrP_fixed]; exact ih _
     | kernel => exact ih _
     | again i e => exact ih _
+    | abort i => exact ih _
 
 def stepsP (k i : Nat) : List MvP := List.replicate k (.thr i)
 
